@@ -214,6 +214,9 @@ def generate(rng, tier, cls):
         # a sink whose write() returns nothing
         spec['write_returns_none'] = True
 
+    if rng.chance(0.05):
+        spec['subclassed'] = True
+
     faults = []
 
     if cls == 'write_error':
